@@ -22,6 +22,7 @@
 From Coq Require Import NArith List Bool.
 From AV Require Import Generated.Table Generated.ParseCfg Spec.Vt Model.Base Model.Parser
   Model.ParseCfg Proofs.ParseCfg Model.Utf8parse Generated.ParserFn Proofs.ParserGen.
+From AV Require Import Model.Utf8parse Model.Imp Generated.Utf8parseFn Proofs.Utf8parseGen.
 Import ListNotations.
 Local Open Scope N_scope.
 
@@ -173,3 +174,18 @@ Proof. exact g_osc_put_eq. Qed.
 Theorem c20_translated_osc_put_push_never_panics :
   forall c p perf b, b <> 59 -> g_perform_action c p perf AOscPut b <> None.
 Proof. exact g_osc_put_byte_no_panic. Qed.
+(* ==== the `utf8` feature, translated ==========================================================
+   With `utf8` the character accumulator is `Utf8Parser` (the third-party decoder `utf8parse`, translated from
+   the registry source of the version Cargo.lock pins: Generated/Utf8parseFn.v, tools/gen_fn_utf8parse.py),
+   without it `AsciiParser`, whose `add` is `unreachable!`.  Both `CharAccumulator::add` impls, translated from
+   crates/anstyle-parse/src/lib.rs, are the hand model's [char_add] under the configuration's [utf8_on]. *)
+Theorem c20_translated_char_add_is_model :
+  forall c u b,
+    (if utf8_on c then g_pa_utf8_add u b
+     else option_map (fun '(_, o) => (u, o)) (g_pa_ascii_add tt b)) = char_add c u b.
+Proof. exact translated_char_add_is_model. Qed.
+
+Theorem c20_translated_utf8parse_advance :
+  forall p r b, g_u8_parser_advance p r b =
+    Some (fst (u8_parser_advance p b), r ++ u8_events (snd (u8_parser_advance p b))).
+Proof. exact g_u8_parser_advance_eq. Qed.
